@@ -94,7 +94,30 @@ def check(ctx, rep):
     some_payload = ("field", ("downcast", strip(hc["term"]), 1), 0)
     good_cmp = [c for c in cmps if set(strip(a) for a in c["args"]) == {some_payload, ("param", 5)}]
     if len(good_cmp) != 1:
-        rep.violation("wrapper", VF, "comparison", "no comparison of the computed hash (Some payload) with the presented hash", vb.loc())
+        # closure form: calculate_hash(..).map_or(false, |h| h == *client_pin_hash)
+        r = strip(vse.ret)
+        ok_form = False
+        why = "no comparison of the computed hash (Some payload) with the presented hash"
+        if util.is_call(r, "std::option::Option::<T>::map_or") and strip(r[2][0]) == strip(hc["term"]) and r[2][1][:2] == ("int", 0):
+            cl = None
+            for i in vse.term_info.values():
+                if i.get("k") == "call" and i["name"] == "std::option::Option::<T>::map_or":
+                    cl = i["locargs"][2]
+            if cl is not None and cl[0] == "agg" and cl[1] == "closure" and len(cl[4]) == 1:
+                cap = cl[4][0]
+                cap_ok = cap[0] == "ref" and vse.read(vse.in_state.get(0, {}), cap[1]) in (("param", 5),) or (cap[0] == "ref" and cap[1] == ("local", 5))
+                cse = ctx.flat.run(cl[2])
+                if cse is not None and cap_ok:
+                    ccmps = util.compare_sites(ctx, cse)
+                    if len(ccmps) == 1:
+                        c = ccmps[0]
+                        ok, why2 = util.whole_value_type(fb, c["self_ty"])
+                        ops = {strip(a) for a in c["args"]}
+                        want = {("param", 2), ("field", ("param", 1), 0)}
+                        ok_form = ok and c["self_ty"].len == 20 and ops == want and strip(cse.ret) == strip(c["term"]) and c["op"] == "eq"
+                        why = why2
+        rep.check(ok_form, "wrapper", VF, "whole-value", "Some(h) => h == presented (all 20 bytes), None => false (map_or form)", "verification is not `hash exists and equals the presented hash`: " + why, vb.loc())
+        rep.check(ok_form, "wrapper", VF, "result", "true only as the result of == on an existing hash; false when no hash exists", "returned boolean is not `Some(h) => h == presented, None => false`", vb.loc())
         return
     c = good_cmp[0]
     ok, why = util.whole_value_type(fb, c["self_ty"])
